@@ -98,6 +98,24 @@ pub fn components(item: &CorpusItem) -> Vec<(String, Comp)> {
         }
         out.push(("stream_mixed_precomputed".into(), Comp::Stream(mixed)));
     }
+    // components that come out of the parser, and frames put together again through the public constructor,
+    // rather than straight out of the encoder
+    if let Ok(Some(parsed)) = crate::pan::catch(|| crate::nomshim::parse_stream(&item.bytes)) {
+        for n in 0..parsed.frame_count().min(2) {
+            let f = parsed.frame(n).unwrap();
+            out.push((format!("frame{n}_parsed"), Comp::Frame(f.clone())));
+            for c in 0..f.subframe_count().min(2) {
+                out.push((format!("frame{n}_sub{c}_parsed"), Comp::SubFrame(f.subframe(c).unwrap().clone())));
+            }
+        }
+        out.push(("stream_parsed".into(), Comp::Stream(parsed)));
+    }
+    if st.frame_count() >= 1 {
+        let (h, subs) = st.frame(st.frame_count() - 1).unwrap().clone().into_parts();
+        if let Ok(f) = Frame::new(h, subs.into_iter()) {
+            out.push(("frame_last_from_parts".into(), Comp::Frame(f)));
+        }
+    }
     for n in 0..st.frame_count() {
         let f = st.frame(n).unwrap();
         out.push((format!("frame{n}"), Comp::Frame(f.clone())));
